@@ -294,6 +294,9 @@ func genC09Client(t *Tape, sc *Scenario, x *c09X) *Scenario {
 	}
 	cs := ConnScript{Lat: drawLat(t), LatBack: drawLat(t), Client: cl}
 	cs.defaults()
+	if t.Bool() {
+		cs.SrvFaults.WriteSplit = []int{1 + t.Intn(20), 1 + t.Intn(5)} // replies arrive in pieces
+	}
 	if t.Chance(1, 8) {
 		// fault stratum: the exchange is broken off somewhere; Auth may return anything but
 		// a success the server's mechanism did not reach
